@@ -1,4 +1,5 @@
 import UtilModel.Seq.Props
+import UtilModel.Seq.Transfer
 open UtilModel UtilModel.Seq
 #print axioms UtilModel.accepts_sound
 #print axioms UtilModel.accepted_satisfies
@@ -37,3 +38,9 @@ open UtilModel UtilModel.Seq
 #print axioms Unique.replay_notifications
 #print axioms Unique.replay_notifications_any_order
 #print axioms Unique.C20_obs_unique
+#print axioms UtilModel.C20_accepted_ioseek
+#print axioms UtilModel.C20_accepted_iosizer
+#print axioms UtilModel.C20_accepted_iocloser
+#print axioms UtilModel.C20_accepted_ioproxy
+#print axioms UtilModel.C20_accepted_unique
+#print axioms UtilModel.acceptsH_sound
